@@ -96,9 +96,13 @@ private:
     encodedKey[pos] = kindCode; pos += 1;
     memcpy(&encodedKey[pos], &nameSize, sizeof(uint32_t));
     pos += sizeof(uint32_t);
-    memcpy(&encodedKey[pos], name.data(), nameSize);
+    // Empty parts may come with a null data pointer, which memcpy() does not
+    // accept even for a zero length.
+    if (nameSize != 0)
+      memcpy(&encodedKey[pos], name.data(), nameSize);
     pos += nameSize;
-    memcpy(&encodedKey[pos], encoder.contents().data(), dataSize);
+    if (dataSize != 0)
+      memcpy(&encodedKey[pos], encoder.contents().data(), dataSize);
     pos += dataSize;
     assert(encodedKey.size() == pos);
     (void)pos;
